@@ -17,39 +17,46 @@ structure Header where
   e2e : Nat
   deriving DecidableEq, Repr, Inhabited
 
-/-- `MessageHeader.as_packed`: five `pack_uint` of Python-int expressions. -/
-def encodeHeader (h : Header) : R Bytes := do
-  let a ← packUint ((h.version <<< 24) ||| h.length)
-  let b ← packUint ((h.flags <<< 24) ||| h.code)
-  let c ← packUint h.appId
-  let d ← packUint h.hbh
-  let e ← packUint h.e2e
-  pure (a ++ b ++ c ++ d ++ e)
+/-- `MessageHeader.as_packed`: five `pack_uint` of Python-int expressions; any
+    of them out of the 32-bit range raises `ConversionError`. -/
+def encodeHeader (h : Header) : R Bytes :=
+  if ((h.version <<< 24) ||| h.length) < 4294967296 ∧ ((h.flags <<< 24) ||| h.code) < 4294967296 ∧
+      h.appId < 4294967296 ∧ h.hbh < 4294967296 ∧ h.e2e < 4294967296 then
+    .ok (be32 ((h.version <<< 24) ||| h.length) ++ be32 ((h.flags <<< 24) ||| h.code) ++
+         be32 h.appId ++ be32 h.hbh ++ be32 h.e2e)
+  else .error .conversion
 
-/-- `MessageHeader.from_bytes`. -/
-def decodeHeader (buf : Bytes) : R Header := do
-  let (vl, p1) ← unpackUint buf 0
-  let (fc, p2) ← unpackUint buf p1
-  let (app, p3) ← unpackUint buf p2
-  let (hbh, p4) ← unpackUint buf p3
-  let (e2e, _) ← unpackUint buf p4
-  pure { version := vl >>> 24, length := vl &&& 0x00ffffff, flags := fc >>> 24,
-         code := fc &&& 0x00ffffff, appId := app, hbh := hbh, e2e := e2e }
+/-- `MessageHeader.from_bytes`: five `unpack_uint` from offset 0; fewer than 20
+    octets raise `ConversionError`. -/
+def u32At (buf : Bytes) (i : Nat) : Nat :=
+  rd32 (buf.getD i 0) (buf.getD (i + 1) 0) (buf.getD (i + 2) 0) (buf.getD (i + 3) 0)
+
+def decodeHeader (buf : Bytes) : R Header :=
+  if buf.length < 20 then .error .conversion
+  else .ok { version := u32At buf 0 >>> 24, length := u32At buf 0 &&& 0x00ffffff,
+             flags := u32At buf 4 >>> 24, code := u32At buf 4 &&& 0x00ffffff,
+             appId := u32At buf 8, hbh := u32At buf 12, e2e := u32At buf 16 }
 
 /-- `Message.as_bytes` of a message whose AVP list is `avps`: the header length
     field is overwritten with 20 + the encoded AVP bytes. -/
-def encodeMsg (h : Header) (avps : List Avp) : R Bytes := do
-  let body ← encodeAvps avps
-  let hb ← encodeHeader { h with length := 20 + body.length }
-  pure (hb ++ body)
+def encodeMsg (h : Header) (avps : List Avp) : R Bytes :=
+  match encodeAvps avps with
+  | .error e => .error e
+  | .ok body =>
+    match encodeHeader { h with length := 20 + body.length } with
+    | .error e => .error e
+    | .ok hb => .ok (hb ++ body)
 
 /-- `Message.from_bytes(data, plain_msg=True)` up to class construction: header
     and the AVP list read from offset 20 to the end of `data` (the header's
     length field is not consulted). -/
-def decodeMsgPlain (buf : Bytes) : R (Header × List Avp) := do
-  let h ← decodeHeader buf
-  let avps ← decodeAvps buf 20
-  pure (h, avps)
+def decodeMsgPlain (buf : Bytes) : R (Header × List Avp) :=
+  match decodeHeader buf with
+  | .error e => .error e
+  | .ok h =>
+    match decodeAvps buf 20 with
+    | .error e => .error e
+    | .ok avps => .ok (h, avps)
 
 /-! ## AVP search -/
 
@@ -61,22 +68,34 @@ def isGroupedAvp (dict : DTree) (a : Avp) : Bool :=
   | some e => e.ty == tagGrouped
   | none => false
 
+/-- One level of `_traverse_avp_tree`: the `for avp in avps` loop with the
+    recursive call abstracted as `sub`. Errors surface in wire order, as the
+    Python loop raises at the first failing element. -/
+def travLevel (code vendor : Nat) (last : Bool) (isG : Avp → Bool)
+    (sub : List Avp → R (List Avp)) : List Avp → R (List Avp)
+  | [] => .ok []
+  | a :: r =>
+    let here : R (List Avp) :=
+      if a.code == code && a.vendor == vendor then
+        if last || !isG a then .ok [a]
+        else match decodeAvps a.payload 0 with
+          | .error _ => .error .avpDecode
+          | .ok s => sub s
+      else .ok []
+    match here with
+    | .error e => .error e
+    | .ok x =>
+      match travLevel code vendor last isG sub r with
+      | .error e => .error e
+      | .ok y => .ok (x ++ y)
+
 /-- `_traverse_avp_tree` with the grouped value parsed on demand; a grouped
     AVP whose payload does not parse raises `AvpDecodeError`. Structural in the
     path, as the Python recursion is. -/
 def traverse (dict : DTree) : List (Nat × Nat) → List Avp → R (List Avp)
   | [], _ => .ok []
   | (code, vendor) :: rest, avps =>
-    avps.foldlM (init := []) fun found a =>
-      if a.code == code && a.vendor == vendor then
-        if rest.isEmpty then pure (found ++ [a])
-        else if !isGroupedAvp dict a then pure (found ++ [a])
-        else match decodeAvps a.payload 0 with
-          | .error _ => .error .avpDecode
-          | .ok sub => do
-            let r ← traverse dict rest sub
-            pure (found ++ r)
-      else pure found
+    travLevel code vendor rest.isEmpty (isGroupedAvp dict) (traverse dict rest) avps
 
 /-- `Message.find_avps` with its cache: the cache maps the rendered path to the
     first result computed for it. -/
@@ -89,9 +108,10 @@ def findAvps (dict : DTree) (avps : List Avp) (cache : FindCache) (path : List (
   if path.isEmpty then .ok ([], cache)
   else match cache.entries.find? (fun p => p.1 == path) with
     | some (_, r) => .ok (r, cache)
-    | none => do
-      let r ← traverse dict path avps
-      pure (r, { entries := cache.entries ++ [(path, r)] })
+    | none =>
+      match traverse dict path avps with
+      | .error e => .error e
+      | .ok r => .ok (r, { entries := cache.entries ++ [(path, r)] })
 
 /-! ## to_answer -/
 
